@@ -56,9 +56,10 @@ def split_query(q: str) -> List[Tuple[str, str]]:
     return list(seen.items())
 
 
-def unfold_ref(s: str, leaf_key_name: str = "ext") -> List[Tuple[str, str]]:
+def unfold_ref(s: str) -> List[Tuple[str, str]]:
     conf = _conf()
     alias = conf.extension_alias
+    leaf_names = [v for v in conf.leaf_keys.values() if v]      # "an ext filter" = a filter on the configured leaf key
     if "?" in s:
         path, query = s.split("?", 1)
     else:
@@ -75,7 +76,7 @@ def unfold_ref(s: str, leaf_key_name: str = "ext") -> List[Tuple[str, str]]:
     qpairs = split_query(query) if query else []
     q_alts: List[List[Tuple[str, str]]] = []
     for k, v in qpairs:
-        if k == leaf_key_name:
+        if k in leaf_names:
             vals = expand_alias_list(v, alias)
         else:
             vals = v.split(",")
